@@ -37,7 +37,7 @@ def emitDelete (s : St) (id : String) (am : Bool) (ex : Option Mode) : List Mode
 def modeEvents (s : St) : Op → List ModeEvent
   | .create m cands => if m.id ≠ "" then [] else emitCreateOrAdd s m cands
   | .add m => if m.id = "" then [] else emitCreateOrAdd s m []
-  | .update m mask w => emitUpdate s m mask w
+  | .update m mask w => if m.id = "" then [] else emitUpdate s m mask w
   | .delete id am ex => emitDelete s id am ex
   | .sCreate m cands => if m.id ≠ "" then [] else emitCreateOrAdd s m cands
   | .sUpdate m mask => if m.id = "" then [] else emitUpdate s m mask {}
@@ -95,7 +95,7 @@ theorem emitCreateOrAdd_view (s : St) (m : Mode) (cands : List String) :
       · simp [hf]
       · simp [hf, applyEvent]
 
-theorem emitUpdate_view (s : St) (hi : Inv p s) (m : Mode) (mask : Option Mask) (w : WOpts) :
+theorem emitUpdate_view (s : St) (hi : Inv p s) (m : Mode) (mask : Option Mask) (w : WOpts) (ht : w.Tame) :
     (emitUpdate s m mask w).foldl applyEvent s.modes = (updateMode s m mask w).1.modes ∧
     (emitUpdate s m mask w).length ≤ 1 := by
   unfold emitUpdate updateMode
@@ -107,26 +107,38 @@ theorem emitUpdate_view (s : St) (hi : Inv p s) (m : Mode) (mask : Option Mask) 
     · simp only [hinv, if_true]
       cases find s m.id <;> simp
     · simp only [hinv, Bool.false_eq_true, if_false]
-      cases hold : find s m.id with
-      | none =>
-        simp only
-        by_cases hc : w.createIfAbsent = true
-        · by_cases he : expectedFails w.expected Mode.blank = true
-          · simp [hc, he]
-          · simp [hc, he, applyEvent]
-        · simp [hc]
-      | some old =>
-        obtain ⟨hmem, _⟩ := find_some hold
-        simp only
-        by_cases ha : w.expectAbsent = true
-        · simp [ha]
-        · by_cases he : expectedFails w.expected old = true
-          · simp [ha, he]
-          · simp only [ha, he, Bool.false_eq_true, if_false]
-            by_cases heq : old = mergeMode old m (maskWithId mask)
-            · simp only [← heq, if_true, List.foldl_nil, List.length_nil, Nat.zero_le, and_true]
-              exact (replaceMode_self hi.nodup hmem).symm
-            · simp [heq, applyEvent]
+      by_cases hrs : maskInvalid w.reset = true
+      · simp only [hrs, if_true]
+        cases find s m.id <;> simp
+      · simp only [hrs, Bool.false_eq_true, if_false]
+        cases hold : find s m.id with
+        | none =>
+          simp only
+          by_cases hc : w.createIfAbsent = true
+          · by_cases he : expectedFails w.expected Mode.blank = true
+            · simp [hc, he]
+            · cases hck : checkFails w Mode.blank with
+              | some c => simp [hc, he]
+              | none =>
+                have hid := (written_tame Mode.blank m mask w ht).1
+                simp [hc, he, applyEvent, insertAt_of_id hid]
+          · simp [hc]
+        | some old =>
+          obtain ⟨hmem, _⟩ := find_some hold
+          simp only
+          by_cases ha : w.expectAbsent = true
+          · simp [ha]
+          · by_cases he : expectedFails w.expected old = true
+            · simp [ha, he]
+            · cases hck : checkFails w old with
+              | some c => simp [ha, he]
+              | none =>
+                have hid := (written_tame old m mask w ht).1
+                simp only [ha, he, Bool.false_eq_true, if_false, storeAt_of_id hid]
+                by_cases heq : old = written old m mask w
+                · simp only [← heq, if_true, List.foldl_nil, List.length_nil, Nat.zero_le, and_true]
+                  exact (replaceMode_self hi.nodup hmem).symm
+                · simp [heq, applyEvent]
 
 theorem emitDelete_view (s : St) (id : String) (am : Bool) (ex : Option Mode) :
     (emitDelete s id am ex).foldl applyEvent s.modes = (deleteMode s id am ex).1.modes ∧
@@ -146,7 +158,7 @@ theorem emitDelete_view (s : St) (id : String) (am : Bool) (ex : Option Mode) :
 
 /-- One operation: folding its events into a view that equals the modes gives the modes afterwards, and
 there is at most one event. -/
-theorem modeEvents_view (s : St) (hi : Inv p s) (op : Op) :
+theorem modeEvents_view (s : St) (hi : Inv p s) (op : Op) (ht : op.Tame) :
     (modeEvents s op).foldl applyEvent s.modes = (step s op).1.modes ∧ (modeEvents s op).length ≤ 1 := by
   cases op with
   | create m cands =>
@@ -164,7 +176,11 @@ theorem modeEvents_view (s : St) (hi : Inv p s) (op : Op) :
       rw [this.1]
       cases hr : createOrAdd s m [] with
       | mk s' r => cases r <;> rfl
-  | update m mask w => exact emitUpdate_view s hi m mask w
+  | update m mask w =>
+    simp only [modeEvents, step]
+    by_cases h : m.id = ""
+    · simp [h]
+    · simp only [h, if_false]; exact emitUpdate_view s hi m mask w ht
   | delete id am ex => exact emitDelete_view s id am ex
   | setActive m =>
     simp only [modeEvents, step, setActive, List.foldl_nil, List.length_nil, Nat.zero_le, and_true]
@@ -187,7 +203,7 @@ theorem modeEvents_view (s : St) (hi : Inv p s) (op : Op) :
     simp only [modeEvents, step]
     by_cases h : m.id = ""
     · simp [h]
-    · simp only [h, if_false]; exact emitUpdate_view s hi m mask {}
+    · simp only [h, if_false]; exact emitUpdate_view s hi m mask {} tame_default
   | sDelete id am =>
     simp only [modeEvents, step]
     by_cases h : id = ""
@@ -212,36 +228,38 @@ theorem modeEvents_view (s : St) (hi : Inv p s) (op : Op) :
 
 /-- After ANY number `k` of events of a run, the subscriber's view is the mode list of a state that
 satisfies the invariant. -/
-theorem view_prefix (s : St) (hi : Inv p s) (ops : List Op) (k : Nat) :
+theorem view_prefix (s : St) (hi : Inv p s) (ops : List Op) (ht : ∀ op ∈ ops, op.Tame) (k : Nat) :
     ∃ s', Inv p s' ∧ ((runEvents s ops).take k).foldl applyEvent s.modes = s'.modes := by
   induction ops generalizing s k with
   | nil => exact ⟨s, hi, by simp [runEvents]⟩
   | cons op ops ih =>
-    obtain ⟨hv, hl⟩ := modeEvents_view s hi op
-    have hi' := step_inv hi op
+    have ht1 := ht op (by simp)
+    have ht2 : ∀ o ∈ ops, o.Tame := fun o ho => ht o (by simp [ho])
+    obtain ⟨hv, hl⟩ := modeEvents_view s hi op ht1
+    have hi' := step_inv hi op ht1
     simp only [runEvents]
     match hme : modeEvents s op, hl, hv with
     | [], _, hv =>
       simp only [List.nil_append, List.foldl_nil] at hv ⊢
-      obtain ⟨s', h1, h2⟩ := ih (step s op).1 hi' k
+      obtain ⟨s', h1, h2⟩ := ih (step s op).1 hi' ht2 k
       exact ⟨s', h1, by rw [hv, h2]⟩
     | [e], _, hv =>
       cases k with
       | zero => exact ⟨s, hi, by simp⟩
       | succ k =>
         simp only [List.cons_append, List.nil_append, List.take_succ_cons, List.foldl_cons, List.foldl_nil] at hv ⊢
-        obtain ⟨s', h1, h2⟩ := ih (step s op).1 hi' k
+        obtain ⟨s', h1, h2⟩ := ih (step s op).1 hi' ht2 k
         exact ⟨s', h1, by rw [hv, h2]⟩
     | _ :: _ :: _, hl, _ => simp at hl
 
-theorem view_full (s : St) (hi : Inv p s) (ops : List Op) :
+theorem view_full (s : St) (hi : Inv p s) (ops : List Op) (ht : ∀ op ∈ ops, op.Tame) :
     (runEvents s ops).foldl applyEvent s.modes = (run s ops).modes := by
   induction ops generalizing s with
   | nil => rfl
   | cons op ops ih =>
     simp only [runEvents, List.foldl_append, run]
-    rw [(modeEvents_view s hi op).1]
-    exact ih _ (step_inv hi op)
+    rw [(modeEvents_view s hi op (ht op (by simp))).1]
+    exact ih _ (step_inv hi op (ht op (by simp))) (fun o ho => ht o (by simp [ho]))
 
 theorem changeActive_changed {s : St} {id : String} {now : Nat} (h : (changeActive s id now).2.isOk = true) :
     (changeActive s id now).1.changed = true := by
